@@ -44,8 +44,8 @@ def scan_forbidden():
     return bad
 
 
-EXTRA_MODULES = {"C01": ["H1", "Ctl", "ExportGen"], "C02": ["H1", "Ctl"], "C04": ["Ctl"], "C05": ["Ctl"], "C06": ["C06Refine", "H1", "Ctl"], "C07": ["C07b", "H1", "Ctl"],
-                 "C09": ["Ctl", "ExportGen"], "C10": ["Ctl", "ExportGen"], "C11": ["Ctl"], "C12": ["H1", "Ctl"], "C14": ["H1", "Ctl"], "C15": ["Ctl"],
+EXTRA_MODULES = {"C01": ["H1", "Ctl", "ExportGen"], "C02": ["H1", "Ctl"], "C04": ["C04c", "Ctl"], "C05": ["Ctl"], "C06": ["C06Refine", "H1", "Ctl"], "C07": ["C07b", "H1", "Ctl"],
+                 "C09": ["Ctl", "ExportGen"], "C10": ["Ctl", "ExportGen"], "C11": ["Ctl"], "C12": ["H1", "Ctl"], "C14": ["C14b", "H1", "Ctl"], "C15": ["Ctl"],
                  "C16": ["C16b", "H1"], "C17": ["C17b", "Ctl"]}
 SHARED_MODULES = {"H1", "Ctl", "ExportGen"}                     # modules holding theorems of several properties: only the `Cnn_…` ones count for Cnn     # further theorem files that belong to a property
 
@@ -199,11 +199,12 @@ def main():
     discharged = [n for n in names if n in axioms and set(axioms[n]) <= ALLOWED_AXIOMS] if build_ok else []
     if build_ok and names and tier == "thorough":
         # independent re-check of the compiled module by the toolchain's external checker
-        rcl, lout = runner.sh(["lake", "env", "leanchecker", "NetflowModel.Props." + pid], cwd=runner.LEAN, timeout=1800)
-        notes.append("leanchecker NetflowModel.Props.%s rc=%s" % (pid, rcl))
-        if rcl != 0:
-            discharged = []
-            notes.append("leanchecker output: " + lout[-400:])
+        for m in prop_modules(pid):
+            rcl, lout = runner.sh(["lake", "env", "leanchecker", "NetflowModel.Props." + m], cwd=runner.LEAN, timeout=1800)
+            notes.append("leanchecker NetflowModel.Props.%s rc=%s" % (m, rcl))
+            if rcl != 0:
+                discharged = []
+                notes.append("leanchecker output: " + lout[-400:])
     obligations_broken = (not build_ok) or bool(forbidden) or len(discharged) != len(names)
     if not build_ok:
         # the driver must still exist for the search below: rebuild it alone (it does not import Props)
